@@ -15,19 +15,29 @@ class Case(_Case):
 
 LEVEL = "proof"
 # C functions this check's models mirror (source-text fingerprints are recorded in the evidence, see translate/funchash.py)
-MODELLED_FUNCS = {'src/json/iwjser.c': ['_jbl_unescape_json_string', '_jbl_parse_json_key', '_jbl_parse_value', '_jbl_node_as_json'], 'src/json/iwjson.c': ['_jbl_write_json_string', '_jbl_as_json', 'iwjson_ftoa'], 'src/utils/iwconv.c': ['iwstrtod']}
+MODELLED_FUNCS = {'src/json/iwjser.c': ['_jbl_unescape_json_string', '_jbl_parse_json_key', '_jbl_parse_value', '_jbl_node_as_json'], 'src/json/iwjson.c': ['_jbl_write_json_string', '_jbl_as_json', 'iwjson_ftoa'], 'src/utils/iwconv.c': ['iwstrtod', 'skipwhite']}
 MANIFEST = dict(
     level="proof",
     text=("Lean 4 theorems over executable models of the JSON text layer (two-pass string unescaper, recursive-descent parser incl. "
           "strtoll number scanning, string/int/structure printer with all flags, UTF-8 leaves): every RFC 8259 text, described "
           "generatively as a concrete syntax tree with arbitrary white space, every escape spelling and surrogate pairs, parses to "
           "the value it denotes; printed text is such a syntax tree of the same value, hence parses back; the fill pass of the "
-          "unescaper stores exactly the bytes counted by the length pass; with the code-point flag output is ASCII; the exact-arithmetic model of iwjson_ftoa writes a valid number token rounded half-even at the eighth fraction digit. The models are "
+          "unescaper stores exactly the bytes counted by the length pass; with the code-point flag output is ASCII; the exact-arithmetic model of iwjson_ftoa writes a valid number token rounded half-even at the eighth fraction digit; "
+          "iwstrtod is modelled branch by branch over a soft-float IEEE binary64 (exact integer arithmetic on bit patterns, proved round-to-nearest-even: "
+          "scale-invariant, identity on representables, monotone, faithful, half-unit) and plugged into the parser model: it consumes exactly "
+          "every valid number token, reads integers below 2^53 exactly, is sign-symmetric except for its two DBL_MIN special cases, monotone in the "
+          "digits read so far, and provably returns the F8 witnesses 0.3, 0.7, 1e23 one ulp above the correctly rounded double. The models are "
           "tied to the code by a differential run of jbn_from_json / jbn_as_json / _jbl_unescape_json_string / iwstrtod / iwjson_ftoa "
-          "against the compiled Lean definitions, and Python's json module is the independent reference parser"),
+          "against the compiled Lean definitions (bit pattern, consumed length and range flag of iwstrtod on every number token and on a malformed / "
+          "huge-exponent / long-digit / denormal stream; the soft float against the hardware on 10^5 boundary-biased operand pairs per run), and "
+          "Python's json module is the independent reference parser"),
     note=("trusted: Lean kernel, translator, harness/generator, Python json/Fraction as reference, gcc+ASan/UBSan; modelled not "
-          "verified: the C control flow of the functions named; doubles are opaque bit patterns on the parse side (iwstrtod is an assumption `SdSpec`: consumes exactly a valid token; its "
-          "value is checked at run time only through the executable Float mirror; iwstrtod is not correctly rounded: open finding F8); keys containing U+0000 are truncated (open finding F9)"),
+          "verified: the C control flow of the functions named; libm's pow(10.0, e) is tabulated by a probe at check time (bit patterns for e = -323..308, "
+          "saturation with ERANGE outside checked up to |e| = 1000009), not modelled; binary64 arithmetic is assumed to be SSE2 double operations "
+          "without FMA contraction or x87 excess precision (cross-checked against the hardware, NaN operands excluded); number tokens with a written "
+          "exponent outside -307..308 are excluded from the parse theorem with the model plugged in (pow under/overflow, DBL_MIN special case: the "
+          "parser rejects them); no end-to-end error bound for iwstrtod is proved and it is not correctly rounded (open finding F8, proved on three "
+          "witnesses); the print-then-parse composition keeps the abstract `SdSpec` hypothesis; keys containing U+0000 are truncated (open finding F9)"),
     technique="Lean 4 proof over executable model + differential correspondence (C harness vs compiled Lean driver) + reference parser oracle")
 MODULE = "IwModel.Props.C13"
 THEOREMS = [
@@ -1128,13 +1138,16 @@ def run(ctx):
                        "either case / surrogate pair; integers around powers of 2 and 10 and the int64 limits; non-integer numbers with 1-25 "
                        "digits, fractions, exponents with signs and leading zeros, and shortest texts of random bit patterns; nesting 0-5 plus "
                        "a deep stream around the limit 999; random white space in every gap; all 16 print flag combinations; a mutated "
-                       "(malformed / lenient) stream; leaf ops for the unescaper, iwstrtod and iwjson_ftoa. A case is one op line with one "
+                       "(malformed / lenient) stream; leaf ops for the unescaper, iwstrtod (clean tokens, and a wild stream: white space, signs, up to 400 "
+                       "digits, exponents at the pow() limits and the accumulator cap, malformed tails, DBL_MIN special cases) and iwjson_ftoa; "
+                       "a hardware cross-check of the soft float (16 boundary-biased operand pairs per case: mul, add, div, ==, int conversion). A case is one op line with one "
                        "oracle; distinct = distinct op text; every case exercises parser or printer")
     ctx.assumptions += [
         "double magnitudes within 1e-290 .. 1e290 (or zero) and decimal exponents |e| <= 300 on the parse side: denormals and pow() under/overflow are out of scope",
         "documents to print hold finite doubles (JSON has no NaN/Infinity), keys without NUL bytes (C strings) and strings that are well-formed UTF-8",
         "texts contain no lone surrogate escapes (RFC 8259 leaves their meaning open; the library rejects them)",
-        "locale is \"C\" (isprint, decimal point of printf)"]
+        "locale is \"C\" (isprint, decimal point of printf)",
+        "binary64 arithmetic of the build is SSE2 without FMA contraction (gcc default on x86-64); libm pow(10, e) at run time is the one tabulated by the translator probe"]
     ctx.translate()
     ok, drv_ok = ctx.prove(MODULE, THEOREMS) if THEOREMS else _build_only(ctx)
     h = builds(ctx)
